@@ -142,6 +142,8 @@ func (s *sim) enabled() []string {
 		for ri := range remoteMenu {
 			evs = append(evs, fmt.Sprintf("L%d", ri))
 		}
+		// a merge whose write transaction has to wait for an application transaction that is just committing
+		evs = append(evs, "X0", "X3")
 	}
 	return evs
 }
@@ -279,9 +281,10 @@ func (s *sim) apply(e string) (viols []viol, stop bool) {
 		}
 		s.last = header.TxnID(s.i.Env.LastTxnID())
 		s.both(func(m *model) { m.capture(s.clock); m.project() })
-	case 'L':
+	case 'L', 'X':
 		var ri int
-		fmt.Sscanf(e, "L%d", &ri)
+		fmt.Sscanf(e[1:], "%d", &ri)
+		straddle := e[0] == 'X' 
 		s.clock += step
 		msg := &snapshot.Snapshot{FormatVersion: 3, CompatVersion: 1}
 		msg.Meta.InstanceID = "remote"
@@ -298,7 +301,7 @@ func (s *sim) apply(e string) (viols []viol, stop bool) {
 			}
 			byDBI[re.dbi] = append(byDBI[re.dbi], re)
 		}
-		dirty := header.TxnID(s.i.Env.LastTxnID()) != s.last
+		dirty := header.TxnID(s.i.Env.LastTxnID()) != s.last || straddle
 		type applied struct {
 			d, k string
 			v    ver
@@ -343,7 +346,21 @@ func (s *sim) apply(e string) (viols []viol, stop bool) {
 			panic(err)
 		}
 		name := snapshot.Name(inst.DBName, "remote", "GX", time.Unix(0, int64(s.clock)))
-		id, changed, err := s.i.Load(name, data, s.last)
+		var id header.TxnID
+		var changed bool
+		if straddle {
+			k0 := key(s.c, s.c.Keys[0])
+			s.flags["d"] = s.dflags("d")
+			last := s.last
+			s.i.Env.Straddle(func(txn *lmdb.Txn) {
+				inst.PlainPut(txn, "d", s.dflags("d"), k0, []byte("straddled"))
+			}, func() {
+				id, changed, err = s.i.Load(name, data, last)
+			})
+			s.both(func(m *model) { m.put("d", string(k0), "straddled") })
+		} else {
+			id, changed, err = s.i.Load(name, data, s.last)
+		}
 		if err != nil {
 			return []viol{{Sig: "load-error", Msg: err.Error()}}, true
 		}
@@ -506,6 +523,10 @@ func expand(hist []string, param json.RawMessage) statemc.Result {
 func main() {
 	flag.Parse()
 	par.ServeIfWorker(map[string]par.Handler{"x": statemc.Handler(expand)})
+	if v, ok := ev.ReplayRequested(); ok {
+		statemc.Replay(v, expand)
+		return
+	}
 	r := ev.Start("C11")
 	defer r.RecoverMain()
 	defer world.Cleanup()
